@@ -57,7 +57,17 @@ def derefs(project, fi, cfg=None):
     org = Origins(project, fi, cfg)
     out = []
 
-    def known(node, name, facts):
+    # a plain copy (found = m, bound once) is tested when what it copies was tested
+    copies = {}
+    for st in ast.walk(fi.node):
+        if isinstance(st, ast.Assign) and len(st.targets) == 1 and isinstance(st.targets[0], ast.Name) and isinstance(st.value, ast.Name):
+            t = st.targets[0].id
+            if sum(1 for x in ast.walk(fi.node) if isinstance(x, ast.Name) and x.id == t and isinstance(x.ctx, (ast.Store, ast.Del))) == 1:
+                copies[t] = st.value.id
+
+    def known(node, name, facts, depth=0):
+        if name in copies and depth < 4 and known(node, copies[name], facts, depth + 1):
+            return True
         if name in facts:
             return True
         st = G.get(node.id)
